@@ -15,6 +15,7 @@ HERE = os.path.dirname(os.path.abspath(__file__))
 TERM_L = 20
 UNWIND = TERM_L + 2
 DIGEST_TERM_L = 24
+SCRAM_UNWIND = 70     # model loops run over TERM_L slots; a byte-wise loop over a digest (a refactored comparison) runs up to 64 times
 OBJECT_BITS = 10   # dfcc's per-object bookkeeping grows with 2^object_bits; these functions address < 1024 objects (else: exit 2)
 
 
@@ -86,9 +87,13 @@ void h_scram(void) { BA u; gh_sent_saslname = u; QXmppSaslClientScram *self; Opt
     cases = [('scram_respond.step0', ['ONLY_STEP=0', 'FINDING_EXCLUDED'], None),
              ('scram_respond.step0.username_needing_escape', ['ONLY_STEP=0', 'FINDING_ONLY'], 'C06-scram-saslname'),
              ('scram_respond.step1', ['ONLY_STEP=1'], None), ('scram_respond.step2', ['ONLY_STEP=2'], None), ('scram_respond.other_steps', ['OTHER_STEPS'], None)]
+    # the function itself is loop-free; a refactoring may bring in a helper with a byte-wise loop (bounded by a digest length): then the
+    # loops are unwound SCRAM_UNWIND times (unwinding assertions on) and minisat is used (cadical 3.0 exhausts memory on that XOR-heavy formula)
+    scram_loops = re.search(r'^\s*(for|while) \(', t_scram, re.M) is not None
     for pid, defs, finding in cases:
         p = Proof(pid, f, 'h_scram', enforce='QXmppSaslClientScram_respond', replace=['SaslScramMechanism_qtAlgorithm', 'parseGS2'], kind='complete',
-                  loop_contracts=False, unwind=UNWIND, include_dirs=[QT], defines=defs, timeout=1500, object_bits=OBJECT_BITS,
+                  loop_contracts=False, unwind=SCRAM_UNWIND if scram_loops else UNWIND, include_dirs=[QT], defines=defs, timeout=2400 if scram_loops else 1500, object_bits=OBJECT_BITS,
+                  **({'solver': ()} if scram_loops else {}),
                   note='loop-free function; user name, password, client nonce, server message: arbitrary (opaque) strings; iteration count: every int; '
                        'all four hash functions; the proof is split by the value of the step counter (0, 1, 2, any other int); model-internal loops over the %d atom slots fully unwound' % TERM_L)
         if finding:
@@ -251,6 +256,14 @@ def find_input(unit, proof, ob, label, work):
     if proof.id.startswith('scram_respond.step1') and ('iteration' in label or 'refused' in label):
         rc, out = native.run_driver(os.path.join(HERE, 'replay_scram_iterations.cpp'), [])
         return {'inputs': {'driver': 'units/C06/replay_scram_iterations.cpp', 'args': [], 'meaning': 'server-first messages with i = 4096, 1, 0, -7, abc, missing'},
+                'native_output': out, 'reproduced': rc == 1}
+    if proof.id.startswith('digest_respond.step1'):
+        rc, out = native.run_driver(os.path.join(HERE, 'replay_digest_secret.cpp'), [])
+        return {'inputs': {'driver': 'units/C06/replay_digest_secret.cpp', 'args': [], 'meaning': 'user names / realms / passwords containing %1 %2 %3'},
+                'native_output': out, 'reproduced': rc == 1}
+    if proof.id.startswith('scram_respond.step2'):
+        rc, out = native.run_driver(os.path.join(HERE, 'replay_scram_signature.cpp'), [])
+        return {'inputs': {'driver': 'units/C06/replay_scram_signature.cpp', 'args': [], 'meaning': 'server-final messages: correct / wrong / truncated / empty / missing verifier'},
                 'native_output': out, 'reproduced': rc == 1}
     if proof.id.startswith('digest_respond.step2'):
         rc, out = native.run_driver(os.path.join(HERE, 'replay_digest_rspauth.cpp'), [])
